@@ -18,5 +18,28 @@ static const Reg regs[] = {
 	C01_MAPV("T.O8.b.q", O8, 8, 4, 0, false, false, StrVal),
 	C01_MAPV("B.O8.c.p", O8, 8, 8, 0, false, true, BigVal),
 };
-static void leaf(const std::vector<std::string>& w) { puts("?leaf"); }
+// o8 <shortHash> b0 .. b6 : the order in which the REAL BucketOpen8::Find calls itemPred (which slots, in which order)
+static void leaf(const std::vector<std::string>& w)
+{
+	typedef internal::BucketOpen8<internal::HashSetBucketItemTraits<HashSetItemTraits<uint64_t, MemManagerDefault>>> B8;
+	if (w.size() != 8) { puts("?leaf"); return; }
+	alignas(B8) static unsigned char buf[sizeof(B8)];
+	B8* b = new (buf) B8();		// never destroyed (the destructor asserts count == 0)
+	size_t sh = std::stoull(w[0]);
+	for (size_t i = 0; i < 7; ++i) b->mData[i] = uint8_t(std::stoull(w[1 + i]));
+	size_t hc24 = (sh * (size_t(1) << 24) + 247) / 248;		// ptCalcShortHash(hc24 << 40) == sh
+	size_t hashCode = hc24 << 40;
+	MemManagerDefault mm; B8::Params params(mm);
+	std::string out;
+	const unsigned char* base = reinterpret_cast<const unsigned char*>(&b->mItems[0]);
+	auto pred = [&out, base] (const uint64_t& item)
+	{
+		size_t idx = size_t(reinterpret_cast<const unsigned char*>(&item) - base) / sizeof(b->mItems[0]);
+		if (!out.empty()) out += ",";
+		out += std::to_string(idx);
+		return false;
+	};
+	b->template Find<true>(params, pred, hashCode);
+	puts(out.c_str());
+}
 int main() { return c01_main(regs, sizeof(regs) / sizeof(regs[0]), &leaf); }
